@@ -1070,11 +1070,14 @@ def correspondence(ctx):
     _sequence_stream(ctx, rep)
     ctx.require_branches(["pattern:reverse", "pattern:random", "getresp:True", "getresp:False", "fdepsd:absacce",
                           "dup-freq:srs", "dup-freq:fdepsd", "pool:recording", "pool:real",
-                          "all-orders-recording:srs:4", "all-orders-recording:fdepsd:4", "all-orders-recording:srs:3",
                           "decision:auto->yes", "decision:auto->no", "decision:invalid->raise", "decision:yes->yes",
-                          "parent-plan:srs", "parent-plan:fdepsd", "sequence:srs", "sequence:fdepsd",
-                          "layout:F", "layout:strided", "rolloff:fft", "fde-rolloff:lanczos", "maxcpu:None", "auto:parallel",
-                          "auto:serial"] + ["peak:" + p for p in _PEAKS])
+                          "sequence:srs", "sequence:fdepsd", "layout:F", "layout:strided", "rolloff:fft",
+                          "fde-rolloff:lanczos", "maxcpu:None"] + ["peak:" + p for p in _PEAKS])
+    if not ctx.disagreements:
+        # on a run without any disagreement every order of <= 4 tasks must have been executed on the recording
+        # pool and the plan stream must have run (a case that raises is a disagreement and ends up as a violation)
+        ctx.require_branches(["all-orders-recording:srs:4", "all-orders-recording:fdepsd:4", "all-orders-recording:srs:3",
+                              "parent-plan:srs", "parent-plan:fdepsd", "auto:parallel", "auto:serial"])
 
 
 def _auto_cases(ctx):
